@@ -162,7 +162,7 @@ PROPS = {
         "level": "proof",
         "units": ["za_nonce_revlock", "validators"],
         "kani": ["balance_decode_invariant", "g1_codec_validates", "g2_codec_validates", "scalar_codec_validates", "channel_id_from_str_exact", "array_visitor_total_n1", "array_visitor_total_n5", "boxed_array_visitor_total_n1", "g1_projective_codec_validates", "g2_projective_codec_validates", "amount_decode_total"],
-        "scans": ["serde_routing", "nonce_sites", "revocation_pair_sites"],
+        "scans": ["serde_routing", "nonce_sites", "revocation_pair_sites", "validated_constructor_sites"],
         "assumptions": [
             "bls12_381 decoders accept canonical, on-curve, in-subgroup encodings only (documented contract of from_compressed/from_bytes)",
             "serde-derive/bincode encode a struct as the concatenation of its fields in declaration order; code generated by serde_derive is not under contract",
